@@ -214,10 +214,24 @@ package repository
 // clocks of its entities from the stored data) - whichever of its clocks is the missing one.
 // detectedGitDir: the git directory found for the path the user is in (ghost record of detectGitPath)
 //@ ghost var detectedGitDir string
-//@ func detectGitPath
+// (that the answer is recorded in detectedGitDir is the definition of that ghost variable.) The body is verified for
+// the two ways an answer comes about besides "<path>/.git is a directory": a `gitdir:` link is followed by running
+// the detection again from the path it names (a linked work tree names a directory *inside* the real git directory,
+// which must not be taken for the repository), and a directory without .git is the answer only when isGitDir
+// said it is a bare repository (C15: everything goes under the real .git/git-bug and refs).
+//@ ghost var lastGitDirAsked string
+//@ ghost var lastGitDirAnswer bool
+//@ func isGitDir
 //@   trusted
-//@   modifies detectedGitDir
-//@   ensures result1 == nil ==> detectedGitDir == result
+//@   modifies lastGitDirAsked, lastGitDirAnswer
+//@   defines lastGitDirAsked == path && lastGitDirAnswer == (result && result1 == nil)
+//@ func detectGitPath
+//@   props C15
+//@   modifies detectedGitDir, lastGitDirAsked, lastGitDirAnswer
+//@   opt trusted_frame
+//@   defines result1 == nil ==> detectedGitDir == result
+//@   assert at `return p, nil` [a-link-is-followed-by-detecting-again] detectedGitDir == p
+//@   assert at `return path, nil` [a-directory-without-dot-git-was-checked] lastGitDirAsked == path && lastGitDirAnswer
 //@ func OpenGoGitRepo
 //@   props C05 C15 C06
 //@   opt storage
@@ -289,3 +303,10 @@ package repository
 //@   ensures [never-stops-the-iteration] result == nil
 //@   ensures [kept-iff-prefix] strings.HasPrefix(name, refPrefix) ==> len(refs) == len(refs0) + 1 && refs[len(refs) - 1] == name && (forall k int :: { refs[k] } 0 <= k && k < len(refs0) ==> refs[k] == old(refs0[k]))
 //@   ensures [others-skipped] !strings.HasPrefix(name, refPrefix) ==> refs == refs0
+
+// Reading a whole section or a sub-section prefix of the configuration (C14: wipe removes the git-bug section only
+// when ReadAll says there is something - so "nothing there" must not be answered for a section that holds keys, for
+// instance only in sub-sections, as the bridge configuration does).
+//@ func (*goGitConfigReader).ReadAll
+//@   props C14
+//@   assert at `return nil, nil` [nothing-answered-only-for-a-section-without-keys] len(split) >= 1 && !(exists k string :: (k in git.rawKeys) && strings.HasPrefix(k, split[0] + "."))
